@@ -2,6 +2,7 @@
 Hermitian Hamiltonians and matching states for the TDVP / DMRG properties (C08, C09, C10) and the
 operation histories (C02, C19).
 """
+import copy
 import numpy as np
 from hypothesis import strategies as st
 
@@ -180,4 +181,22 @@ def gauge_edit(psi, seed):
     g = 2.0 ** rng.integers(-2, 3, size=psi.A[b].shape[1])
     psi.A[b - 1] = psi.A[b - 1] * g[None, None, :]
     psi.A[b] = psi.A[b] / g[None, :, None]
+    return True
+
+
+def quench_ham(H, h):
+    """User-style parameter quench on the SAME MPO object: the tensors of another Hamiltonian of the same family (other parameters /
+    another random draw, same bond layout) are assigned to `H`. Returns False (and leaves H alone) if the layouts differ."""
+    h2 = copy.deepcopy(h)
+    if h2['kind'] == 'random':
+        h2['op'] = dict(h2['op'], seed=h2['op']['seed'] + 1)
+    elif h2.get('model') in ('molecular', 'spin_molecular'):
+        h2['seed'] = h2['seed'] + 1
+    else:
+        h2['params'] = [0.6 * p + (0.45 if p >= 0 else -0.45) for p in h2['params']]
+    H2 = build_ham(h2)
+    if H2.bond_dims != H.bond_dims or any(not np.array_equal(p, q) for p, q in zip(H2.qD, H.qD)):
+        return False
+    for i in range(len(H.A)):
+        H.A[i] = H2.A[i]
     return True
